@@ -594,6 +594,7 @@ def run(ck: Check):
                          "lxml (reading sample and output documents for the infoset verdict), json.loads",
                          "harness/cm_export.py + harness/c13.py metadata exporter",
                          "axioms: " + (", ".join(axioms) or "none (closed under the global context)")],
-                     assumptions=["`regular` = the clauses g_nil_first, g_kind_empty, g_kind_leaf, g_nil_present, g_values_exact (XML), g_json_strings, "
-                                  "g_json_exact (JSON) of Model/SampleCorr.v, evaluated in Coq per document",
+                     assumptions=["`regular` = the clauses g_kind_empty, g_kind_leaf, g_nil_present, g_values_exact, g_order (XML), g_json_exact (JSON) "
+                                  "of Model/SampleCorr.v, evaluated in Coq per document; tree_nil_ok, doc_ns_ok, g_json_strings are theorems since "
+                                  "the /repo fixes 359d494, 6637729, 9a0cfef and stay in the check as regression sentinels",
                                   "ClassContainer.process, Filters and XmlContext are validated per program, not modelled"])
